@@ -594,6 +594,14 @@ func c04Replay(r *vcore.Run, sub string, raw json.RawMessage) {
 	if sub == "pair" {
 		var c c04PairCase
 		if json.Unmarshal(raw, &c) == nil {
+			// the cases that ran before it in the same process, unjudged
+			quiet := vcore.NewRun("C04", "quick", "model_checking", "replay-prefix")
+			for _, pc := range c04PairCases(c.Thorough) {
+				if pc.Index >= c.Index {
+					break
+				}
+				c04PairRun(quiet, pc)
+			}
 			c04PairRun(r, c)
 		}
 		return
